@@ -70,3 +70,51 @@ Theorem C15_go_pick_too_small :
 Proof. exact pick_too_small_ok. Qed.
 Print Assumptions C15_go_pick_too_small.
 
+(* ---- "bounded by the live data, not by history" (DBProofsCompactFix.v), for a quiescent Compact.
+   [elig] = the two tests of pickForCompaction that look at a segment alone (at least the minimum
+   size, fragmented enough); [frag0] = a segment without dead bytes is never fragmented enough.
+   After ONE Compact: every file of the directory belongs to a live segment or is one of the five
+   fixed files; as many .psg files as open segments and at most 2n+5 files; both files of every
+   segment that was eligible are gone; a remaining segment can be eligible only if it is the segment
+   that was open, too small to be considered, and grew by promoted records.  After TWO: nothing is
+   eligible any more: every segment is below the minimum size or has less than the threshold of
+   dead bytes.  (That one Compact is not always a fixpoint is a counterexample of the same file,
+   replayable on the code: FixEx.compact_fixpoint_refuted.) *)
+From Pogreb Require Import DBRun DBProofsCompactFix.
+Theorem C15_after_one_compaction :
+  forall P (s : st) (m0 : mem),
+  Inv P s -> MetaOK s -> files_exact s -> s_mem s = Some m0 -> compact_room P s -> frag0 P ->
+  exists m', s_mem (fst (db_compact flat_ops P s)) = Some m' /\
+    files_exact (fst (db_compact flat_ops P s)) /\
+    length (filter is_segfile (dir (s_disk (fst (db_compact flat_ops P s))))) = length (m_segs m') /\
+    (length (dir (s_disk (fst (db_compact flat_ops P s)))) <= 2 * length (m_segs m') + 5)%nat /\
+    (forall n, In n (dir (s_disk (fst (db_compact flat_ops P s)))) ->
+       (exists g, In g (m_segs m') /\ (n = FSeg (g_id g) (g_seq g) \/ n = FSegMeta (g_id g) (g_seq g))) \/
+       fixed_name n) /\
+    (forall g, In g (m_segs m0) -> elig P g = true ->
+       ~ In (FSeg (g_id g) (g_seq g)) (dir (s_disk (fst (db_compact flat_ops P s)))) /\
+       ~ In (FSegMeta (g_id g) (g_seq g)) (dir (s_disk (fst (db_compact flat_ops P s))))) /\
+    (forall g', In g' (m_segs m') ->
+       elig P g' = false \/
+       exists g, In g (m_segs m0) /\ keepd g g' /\ sm_full (g_meta g) = false /\ elig P g = false /\
+                 (g_size g < g_size g')%N).
+Proof. exact C15_files_bounded_after_compact. Qed.
+Print Assumptions C15_after_one_compaction.
+
+Theorem C15_two_compactions_reach_a_fixpoint :
+  forall P (s : st) (m0 : mem),
+  Inv P s -> MetaOK s -> files_exact s -> s_mem s = Some m0 -> compact_room P s -> frag0 P ->
+  compact_room P (fst (db_compact flat_ops P s)) ->
+  exists m2, s_mem (fst (db_compact flat_ops P (fst (db_compact flat_ops P s)))) = Some m2 /\
+    pick P m2 = [] /\
+    files_exact (fst (db_compact flat_ops P (fst (db_compact flat_ops P s)))) /\
+    length (filter is_segfile (dir (s_disk (fst (db_compact flat_ops P (fst (db_compact flat_ops P s)))))))
+      = length (m_segs m2) /\
+    (length (dir (s_disk (fst (db_compact flat_ops P (fst (db_compact flat_ops P s))))))
+      <= 2 * length (m_segs m2) + 5)%nat /\
+    (forall g, In g (m_segs m2) -> (p_minseg P <= u32 (g_size g))%N ->
+       p_frag P (sm_delbytes (g_meta g)) (g_size g) = false).
+Proof. exact C15_files_bounded_after_two_compactions. Qed.
+Print Assumptions C15_two_compactions_reach_a_fixpoint.
+
+Definition C15_one_compaction_is_not_a_fixpoint := FixEx.compact_fixpoint_refuted.
